@@ -110,7 +110,9 @@ var c16Fields = []c16Field{
 			}
 			panic(op)
 		},
-		sel:  func(a, b interface{}, c int) interface{} { return new(SM2Element).Select(a.(*SM2Element), b.(*SM2Element), c) },
+		sel: func(a, b interface{}, c int) interface{} {
+			return new(SM2Element).Select(a.(*SM2Element), b.(*SM2Element), c)
+		},
 		byts: func(a interface{}) []byte { return a.(*SM2Element).Bytes() },
 	},
 	{
@@ -296,8 +298,14 @@ func TestVerif_C16_Ops(t *testing.T) {
 						w = a
 					}
 					cases = append(cases,
-						alias{fmt.Sprintf("select%d:recv=a", cond), func() interface{} { x, y := mk(a).(*SM2ScalarElement), mk(b).(*SM2ScalarElement); return x.Select(x, y, cond) }, w},
-						alias{fmt.Sprintf("select%d:recv=b", cond), func() interface{} { x, y := mk(a).(*SM2ScalarElement), mk(b).(*SM2ScalarElement); return y.Select(x, y, cond) }, w})
+						alias{fmt.Sprintf("select%d:recv=a", cond), func() interface{} {
+							x, y := mk(a).(*SM2ScalarElement), mk(b).(*SM2ScalarElement)
+							return x.Select(x, y, cond)
+						}, w},
+						alias{fmt.Sprintf("select%d:recv=b", cond), func() interface{} {
+							x, y := mk(a).(*SM2ScalarElement), mk(b).(*SM2ScalarElement)
+							return y.Select(x, y, cond)
+						}, w})
 				}
 			}
 			for _, c := range cases {
@@ -467,7 +475,6 @@ func TestVerif_C16_MultiSelect(t *testing.T) {
 		}
 	})
 }
-
 
 func TestVerif_C16_EqualPartial(t *testing.T) {
 	rec := stats.Get("C16", "equal-partial")
